@@ -296,13 +296,21 @@ func (privVal *PrivValidator) signBytesHRS(height, round int64, step int8, signB
 	// Sign
 	signature := privVal.Sign(signBytes)
 
-	// Persist height/round/step
+	// Persist height/round/step. The signature must not leave the signer unless the
+	// record that forbids contradicting it is on disk: after a failed write a restart
+	// would come back with the old record and sign something else for this step.
+	prevHeight, prevRound, prevStep := privVal.LastHeight, privVal.LastRound, privVal.LastStep
+	prevSignature, prevSignBytes := privVal.LastSignature, privVal.LastSignBytes
 	privVal.LastHeight = height
 	privVal.LastRound = round
 	privVal.LastStep = step
 	privVal.LastSignature = signature
 	privVal.LastSignBytes = signBytes
-	privVal.save()
+	if err := privVal.save(); err != nil {
+		privVal.LastHeight, privVal.LastRound, privVal.LastStep = prevHeight, prevRound, prevStep
+		privVal.LastSignature, privVal.LastSignBytes = prevSignature, prevSignBytes
+		return nil, err
+	}
 
 	return signature, nil
 
